@@ -654,9 +654,9 @@ def _cases(ctx):
         for b in range(1, 6 if not big else 9):
             for r in range(0, 4):
                 yield {"kind": "ls", "A": A, "b": b, "r": r}
-    for _ in range(ctx.budget(1500, 40000)):
+    for _ in range(ctx.budget(900, 40000)):
         yield gen_concat(ctx.rng)
-    for _ in range(ctx.budget(1000, 30000)):
+    for _ in range(ctx.budget(700, 30000)):
         yield gen_cons_case(ctx.rng)
     for _ in range(ctx.budget(300, 5000)):
         yield gen_ls(ctx.rng)
